@@ -29,7 +29,10 @@ RULE = ("(M) exhaustive TLC: StoreQuery merge lemma (all term sequences per key)
         "13 keys and a hash-selected slice of all two-term queries, run as aspect 'query' (Client.Query and db.Query) and aspect "
         "'list' (Client.ListUploads unlimited and limited, db.ListUploads). Expected answers are the specification's DECLARATIVE "
         "ones. (T) recorded histories (2-4 uploads, 20 label keys, values needing quoting, runs of equal results long enough to "
-        "cross the index's flush threshold) validated by StoreQuery_trace. "
+        "cross the index's flush threshold) validated by StoreQuery_trace; every fourth history each has benchmark names of up to "
+        "18 parts (unnamed parts numbered past sub9, named parts in between), label values of 4 KiB - 64 KiB sharing long prefixes "
+        "(queried by equality and ranges next to them), and runs of 50-140 equal results whose lines carry many metrics (records "
+        "of 64 KiB - 400 KiB). "
         "distinct_nontrivial = replayed (store, query) pairs whose expected answer is neither empty nor the whole store, plus "
         "word cases containing a quote or a backslash, plus recorded query events with a non-empty answer.")
 
@@ -42,6 +45,9 @@ KNOWN_CLASSES = (
 )
 
 JAVA_STACK = {"JAVA_TOOL_OPTIONS": "-Xss512m"}
+
+# flavour of recorded history number h (h % 4), see sqRecordHistory
+FLAVOURS = ("", "deep-names", "long-label-values", "long-runs-of-wide-results")
 
 
 def patch_cfgs(ctx, is_label):
@@ -127,7 +133,7 @@ def run(ctx):
                                "store_cases": len(cases)}
 
     # ---------------------------------------------------------------- (T)
-    nh = 6 if q else 60
+    nh = 8 if q else 64      # a multiple of the recorder's four flavours of history
     tp = os.path.join(ctx.work, "sq-trace.ndjson")
     ctx.harness(["storequery", "record", tp, nh])
     events = ctx.read_ndjson(tp)
@@ -148,7 +154,13 @@ def run(ctx):
                 e = dict(events[i - 1]); e.pop("got", None)
                 if e.get("ev") == "upload":
                     e = {"ev": "upload"}
-                failing.append({"signature": c, "detail": "recorded %s event judged by StoreQuery_trace: %s" % (e.get("ev"), c),
+                sig = c
+                fl = FLAVOURS[events[i - 1].get("h", 0) % 4]
+                if c not in KNOWN_CLASSES and fl:
+                    sig = "%s:%s" % (c, fl)      # which kind of history the unexplained answer was recorded in
+                if len(json.dumps(e)) > 3000:
+                    e = {k: (v if len(json.dumps(v)) < 600 else "... %d bytes ..." % len(json.dumps(v))) for k, v in e.items()}
+                failing.append({"signature": sig, "detail": "recorded %s event judged by StoreQuery_trace: %s" % (e.get("ev"), c),
                                 "event": e, "family": "storequery-trace"})
             else:
                 failing.append({"signature": c, "detail": "same class", "family": "storequery-trace"})
